@@ -786,9 +786,82 @@ func (c *Ctx) keyListOf(v ssa.Value, at ssa.Instruction) (ssa.Value, string) {
 	return c.keysOfMapD(v, at, 0)
 }
 
+// keysInVariable: the list lives in a variable (a local captured by a closure, e.g. the less function of sort.Slice):
+// every store into the variable is an empty list or append(<the variable>, <range key of one map>) in the block that
+// extracts the key, and the variable is allocated in the same loop body as the range (not carried over from an
+// earlier iteration of an outer loop).
+func (c *Ctx) keysInVariable(al *ssa.Alloc) ssa.Value {
+	var m ssa.Value
+	var rngBlk *ssa.BasicBlock
+	n := 0
+	for _, st := range storesTo(al) {
+		if emptySliceValue(st.Val) {
+			continue
+		}
+		call, ok := st.Val.(*ssa.Call)
+		if !ok || calleeName(call) != "builtin:append" || len(call.Call.Args) != 2 {
+			return nil
+		}
+		if u, ok := call.Call.Args[0].(*ssa.UnOp); !ok || u.X != ssa.Value(al) {
+			return nil
+		}
+		sl, ok := call.Call.Args[1].(*ssa.Slice)
+		if !ok {
+			return nil
+		}
+		va, ok := sl.X.(*ssa.Alloc)
+		if !ok {
+			return nil
+		}
+		for _, r := range *va.Referrers() {
+			ia, ok := r.(*ssa.IndexAddr)
+			if !ok {
+				continue
+			}
+			for _, rr := range *ia.Referrers() {
+				vst, ok := rr.(*ssa.Store)
+				if !ok {
+					continue
+				}
+				mm, kb := rangeKeyOf(vst.Val)
+				if mm == nil || kb != call.Block() {
+					return nil
+				}
+				if ex, ok := vst.Val.(*ssa.Extract); ok {
+					if nx, ok := ex.Tuple.(*ssa.Next); ok {
+						if rg, ok := nx.Iter.(*ssa.Range); ok {
+							rngBlk = rg.Block()
+						}
+					}
+				}
+				mm = resolve(mm, nil)
+				if m != nil && m != mm {
+					return nil
+				}
+				m = mm
+				n++
+			}
+		}
+	}
+	if n == 0 || m == nil || rngBlk == nil {
+		return nil
+	}
+	if innermostLoopHeader(al.Block()) != innermostLoopHeader(rngBlk) {
+		return nil
+	}
+	return m
+}
+
 func (c *Ctx) keysOfMapD(v ssa.Value, at ssa.Instruction, depth int) (ssa.Value, string) {
 	if v == nil || depth > 2 {
 		return nil, ""
+	}
+	if u, ok := v.(*ssa.UnOp); ok && u.Op == token.MUL {
+		if al, ok := u.X.(*ssa.Alloc); ok && len(storesTo(al)) > 1 {
+			if m := c.keysInVariable(al); m != nil {
+				return m, ""
+			}
+		}
 	}
 	if sl, ok := v.(*ssa.Slice); ok && sl.Low == nil && sl.High == nil {
 		v = sl.X
@@ -874,6 +947,7 @@ func (c *Ctx) keysOfMapD(v ssa.Value, at ssa.Instruction, depth int) (ssa.Value,
 	// appended in a loop
 	seen := map[ssa.Value]bool{}
 	okAll := true
+	var phis []*ssa.Phi
 	var rec func(x ssa.Value)
 	rec = func(x ssa.Value) {
 		if x == nil || seen[x] || !okAll {
@@ -882,6 +956,7 @@ func (c *Ctx) keysOfMapD(v ssa.Value, at ssa.Instruction, depth int) (ssa.Value,
 		seen[x] = true
 		switch y := x.(type) {
 		case *ssa.Phi:
+			phis = append(phis, y)
 			for _, e := range y.Edges {
 				rec(e)
 			}
@@ -922,10 +997,56 @@ func (c *Ctx) keysOfMapD(v ssa.Value, at ssa.Instruction, depth int) (ssa.Value,
 		}
 	}
 	rec(r)
+	// a list carried around an OUTER loop (a scratch slice declared before the loop over several maps) still holds the
+	// keys appended for the previous map unless every back edge of that outer loop brings an empty list: SSA has one
+	// Range instruction for all iterations, so the keys of "the same map" may be those of an earlier one
+	if okAll && n > 0 {
+		for _, ph := range phis {
+			hb := ph.Block()
+			for i, e := range ph.Edges {
+				pb := hb.Preds[i]
+				if !hb.Dominates(pb) {
+					continue // entry edge
+				}
+				// back edge: is this the header of the range loop that appends (its Next sits in this block)?
+				inner := false
+				for _, in := range hb.Instrs {
+					if nx, ok := in.(*ssa.Next); ok {
+						if rg, ok := nx.Iter.(*ssa.Range); ok && resolve(rg.X, nil) == m {
+							inner = true
+						}
+					}
+				}
+				if inner {
+					continue
+				}
+				if !emptySliceValue(e) {
+					okAll = false
+				}
+			}
+		}
+	}
 	if okAll && n > 0 {
 		return m, tr
 	}
 	return nil, ""
+}
+
+// emptySliceValue: nil, make([]T, 0, ...), or x[:0].
+func emptySliceValue(v ssa.Value) bool {
+	switch x := v.(type) {
+	case *ssa.Const:
+		return x.IsNil()
+	case *ssa.MakeSlice:
+		k, ok := constInt(x.Len)
+		return ok && k == 0
+	case *ssa.Slice:
+		if x.High != nil {
+			k, ok := constInt(x.High)
+			return ok && k == 0
+		}
+	}
+	return false
 }
 
 // elemOfKeys: v is a name taken from the key set of a map: the key variable of a range over the map, or the element
